@@ -66,6 +66,12 @@ SCENARIOS = {
     'unknown_errupdate': dict(callers=[('foo', 'm:p1'), ('read', 'm:p2')], xreply=True, errupd_before_reply=True),
     # a request that timed out must not block a later request with the same key
     'timeout_then_same': dict(callers=[('read', 'm:p1'), ('read', 'm:p1', 11.5)], ignore=[1]),
+    # the answer to a request that timed out arrives late, while the next request with the same key is waiting behind it
+    'late_reply_same': dict(callers=[('read', 'm:p1'), ('read', 'm:p1', 10.1)], late={1: 10.4}),
+    # ... and the next request is made in the window between the time-out and the receive thread's housekeeping
+    'late_reply_window': dict(callers=[('read', 'm:p1', 0.5), ('read', 'm:p1', 10.6)], late={1: 10.3}),
+    'late_reply_window2': dict(callers=[('read', 'm:p1', 0.3), ('read', 'm:p1', 10.4), ('read', 'm:p1', 10.5)], late={1: 10.4}),
+    'late_reply_same2': dict(callers=[('read', 'm:p1'), ('read', 'm:p1', 10.05), ('read', 'm:p2', 10.3)], late={1: 10.7}),
 }
 T0 = 1000000.0
 
